@@ -19,7 +19,7 @@ RULE = ("Hypothesis-generated synthetic rulesets with a PRINCE base list (types 
         "real prince_ling.main() is run in-process unbounded (U), to a file, and with --size N for EVERY N in 1..|U|+1. "
         "Oracle: Counter(U) == model language of (type, value, capitalisation), each derivation once; the model probabilities "
         "along U are non-increasing; file bytes == stdout bytes; size-N output == U[:N]. A CLI part runs prince_ling.py as a "
-        "subprocess under drawn invocation contexts (hash seed different from the reference run's when the PRINCE types and their top groups are tied, one case in three). Non-trivial = N strictly inside a group of >=2 equally probable words; distinct = hash of (model, flag, N).")
+        "subprocess under drawn invocation contexts (hash seed different from the reference run's when the PRINCE types and their top groups are tied, one case in three). Non-trivial = N strictly inside a group of >=2 equally probable words; distinct = hash of (model, flag, N). Scale part large_list: a PRINCE list of 160 009 / 400 009 words (more than 1 MiB) to stdout, to a file and with --size far into the list.")
 ASSUMPTIONS = ["N >= 1", "UTF-8 ruleset encoding for the file == stdout comparison"]
 
 _ROOT = None
